@@ -42,6 +42,8 @@ class TraceRun:
         self.region_vars = {}
         self.type_leak = False
         self.nonbool_guard = False
+        self.rets = []
+        self.alt_inputs = None
         self.outcome = None        # "completed" | "raised:<cls>"
         self.outcome_msg = ""
         self.steps = 0
@@ -147,6 +149,9 @@ class TraceRun:
             os.chdir(old)
             shutil.rmtree(d, ignore_errors=True)
         self.probe("checkpoint_prove")
+
+    def cb_ret(self, vals):
+        self.rets.append({nm: snapshot_values(v, self.w.lc_of) for nm, v in vals.items()})
 
     def cb_set_res(self, r):
         self.w.fixedpoint.resolution = r
@@ -354,6 +359,7 @@ class TraceRun:
             "LinCombFxp": w.fixedpoint.LinCombFxp,
             "if_then_else": w.branching.if_then_else, "Array": w.array.Array,
             "__zero__": rt.ConstVal(0), "__poseidon__": self.cb_poseidon, "__inputs__": self.inputs,
+            "__E__": PlanEnum, "__ret__": self.cb_ret, "__alt__": self.alt_inputs,
             "__set_res__": self.cb_set_res, "__set_bl__": self.cb_set_bl, "__prove__": self.cb_prove,
             "__step__": self.cb_step, "__enter__": self.cb_enter,
             "__leave__": self.cb_leave, "__caught__": self.cb_caught, "__set_ie__": self.cb_set_ie,
@@ -453,6 +459,15 @@ class TraceRun:
                       for v in self.violations))
 
 
+import enum
+
+
+class PlanEnum(enum.IntEnum):
+    A = 3
+    B = 7
+    C = 0
+
+
 def flat_leaves(x, out=None):
     """Leaves of nested lists / tuples / dicts in traversal order (dict values in key order of insertion)."""
     if out is None:
@@ -477,7 +492,9 @@ def _plain(x):
         return ["dict"] + [[k, _plain(x[k])] for k in x]
     if isinstance(x, bool):
         return int(x)
-    if isinstance(x, (int, float)):
+    if isinstance(x, int):
+        return int(x)
+    if isinstance(x, float):
         return x
     return "<%s>" % type(x).__name__
 
@@ -529,6 +546,22 @@ class NArray:
         self.arr[self._ix(item)] = value
 
 
+def _nadd(self, other):
+    if isinstance(other, NArray):
+        return NArray([a + b for a, b in zip(self.arr, other.arr)])
+    return NArray([a + other for a in self.arr])
+
+
+def _nmul(self, other):
+    return NArray([other * a for a in self.arr])
+
+
+NArray.__add__ = _nadd
+NArray.__radd__ = _nadd
+NArray.__mul__ = _nmul
+NArray.__rmul__ = _nmul
+
+
 class NRow(NArray):
     def __init__(self, base):
         self.arr = list(base.arr)     # a row read at a secret index is a value, not a view
@@ -554,7 +587,7 @@ def snapshot_values(obj, lc_of=None):
     return obj
 
 
-def run_native(plan, inputs=None, snapshots=None):
+def run_native(plan, inputs=None, snapshots=None, alt=None):
     """Native-control-flow twin of a block-API plan: plain ints, native if/while/for.
     Returns (outcome, {tracked name: value})."""
     from .plan import CodeGen
@@ -563,6 +596,7 @@ def run_native(plan, inputs=None, snapshots=None):
     ident = lambda v: v
     caught = []
     calls = {}
+    rets = []
 
     def step(k, loc, model):
         if snapshots is not None:
@@ -571,8 +605,9 @@ def run_native(plan, inputs=None, snapshots=None):
     g = {"PrivVal": S, "PubVal": S, "PrivValBool": int, "PubValBool": int, "PrivValFxp": float,
          "PubValFxp": float, "__inputs__": inputs if inputs is not None else [i["v"] for i in plan["inputs"]],
          "__step__": step, "__caught__": lambda k, e, m=(): caught.append((k, type(e).__name__)),
-         "__CAUGHT__": Exception, "Array": NArray, "__flat__": flat_leaves, "__zero__": 0,
+         "__CAUGHT__": Exception, "Array": NArray, "__flat__": flat_leaves, "__zero__": 0, "__E__": PlanEnum,
          "__set_res__": lambda r: None, "__set_bl__": lambda b: None,
+         "__ret__": lambda vals: rets.append({nm: snapshot_values(v) for nm, v in vals.items()}), "__alt__": alt,
          "__callend__": lambda n, ret: calls.__setitem__(n, _plain(ret)),
          "__enter__": lambda *a: None, "__leave__": lambda *a: None}
     try:
@@ -582,4 +617,5 @@ def run_native(plan, inputs=None, snapshots=None):
         outcome = "raised:" + type(e).__name__
     run_native.last_caught = caught
     run_native.last_calls = calls
+    run_native.last_rets = rets
     return outcome, {k[2:]: v for k, v in g.items() if k.startswith("T_")}, src
